@@ -163,6 +163,19 @@ def classify(F, fn, input_term=None, domain=None):
     for b in sorted(body.reachable):
         if b in state and not body.succ[b] and body.term(b)["k"] != "return":
             pieces.append((state[b], ("diverge", M.callee_path(body.term(b)) if body.term(b)["k"] == "call" else body.term(b)["k"]), b))
+    # pieces that assign the same value are one piece (the same arm reached along several input-independent paths,
+    # e.g. through the branches of a logging macro; THREAD duplicates the assignment per path)
+    merged = []
+    for (s_, v_, b_) in pieces:
+        nv = G.N(v_)
+        for j_, (s2, v2, b2) in enumerate(merged):
+            if G.N(v2) == nv:
+                merged[j_] = (union(s2, s_), v2, b2)
+                break
+        else:
+            merged.append((s_, v_, b_))
+    # re-check: merging must not hide a real overlap between *different* values
+    pieces = merged
     # exclusivity / totality
     cov = ()
     for (s, _, _) in pieces:
